@@ -63,6 +63,9 @@ let mk_response (code : int) (variant : string) : response =
   | "cl" -> hdr "Content-Length" "3" (resp_new c)
   | "ct" -> hdr "content-type" "x/y" (resp_text !plain c (bytes_of_string "hi"))
   | "te" -> hdr "transfer-encoding" "chunked" (resp_new c)
+  | "cl2" -> hdr "content-length" "3" (hdr "Content-Length" "3" (resp_new c))
+  | "ct2" -> hdr "Content-Type" "x/y" (hdr "content-type" "x/y" (resp_text !plain c (bytes_of_string "hi")))
+  | "te2" -> hdr "Transfer-Encoding" "chunked" (hdr "transfer-encoding" "chunked" (resp_new c))
   | "h" -> hdr "x-a" "b c" (resp_new c)
   | "fm" -> { (resp_new c) with r_body = BKnown (n_of_int 10, false, { r_data = []; r_sched = [] }) }
   | "fs" -> { (resp_new c) with r_body = BKnown (n_of_int 10, true, { r_data = bytes_of_string "abc"; r_sched = [] }) }
